@@ -2847,6 +2847,14 @@ func (p *Parser) parseUnaryExpr() (Expr, error) {
 
 // parseRegex parses a regular expression.
 func (p *Parser) parseRegex() (*RegexLiteral, error) {
+	// The raw look-ahead below inspects the reader, which is only the next
+	// input when no token has been pushed back. With a buffered token (for
+	// instance the comma after a measurement name) that token comes next, so
+	// there is no regex here.
+	if p.s.n > 0 {
+		return nil, nil
+	}
+
 	nextRune := p.peekRune()
 	if isWhitespace(nextRune) {
 		p.consumeWhitespace()
